@@ -24,7 +24,7 @@ import MachSysS.gymir_result_pb2 as proto_gymir
 from RunFeemsSim.machinery_calculation import MachineryCalculation
 
 THEOREMS = ["diffs_length", "hold_dt", "hold_power", "last_sample_unused", "total_duration", "routes_agree_scalar", "routes_agree_series",
-            "aux_scalar_is_constant", "aux_series_truncated", "split_sum", "same_inputs_same_results"]
+            "aux_scalar_is_constant", "aux_series_truncated", "split_sum", "propulsors_receive_all", "propulsors_legacy_double", "same_inputs_same_results"]
 
 
 def gen_case(rng, idx):
@@ -154,7 +154,8 @@ def run_case(ctx, case, model=True):
         es = plant.electric
         props = list(es.propulsion_drives) + ([] if case["kind"] == "electric" else list(plant.mechanical.mechanical_loads))
         ctx.count("propulsors", "electric and mechanical" if (es.propulsion_drives and case["kind"] != "electric") else "one kind")
-        prepared[name] = {"per_propulsor": [np.asarray(p.power_output, dtype=float) for p in props],
+        prepared[name] = {"drives": len(es.propulsion_drives), "mech_loads": 0 if case["kind"] == "electric" else len(plant.mechanical.mechanical_loads),
+                          "per_propulsor": [np.asarray(p.power_output, dtype=float) for p in props],
                           "per_aux_load": [np.asarray(o.power_input, dtype=float) for o in es.other_load],
                           "dt": np.asarray(es.time_interval_s, dtype=float)}
     if len(results) < 2:
@@ -195,7 +196,7 @@ def run_case(ctx, case, model=True):
         for name in names:
             pr = prepared[name]
             k, m = max(1, len(pr["per_propulsor"])), max(1, len(pr["per_aux_load"]))
-            common = dict(propulsors=k, aux_loads=m)
+            common = dict(drives=pr["drives"], mech_loads=pr["mech_loads"], shaft_lines=case["kind"] != "electric", aux_loads=m)
             if name == "gymir":
                 a = ctx.model.call("profile.gymir", t=[enc(x) for x in t], P=[enc(x) for x in P], aux=enc(case["aux"]), **common)
             elif name == "series":
